@@ -241,6 +241,9 @@ pub fn run_outcome(ctx: &Ctx) -> (&'static str, Outcome) {
             for f in &res.findings {
                 eprintln!("FINDING {} {} :: {}", f.prop, f.signature, f.detail);
             }
+            if std::env::var("VERIF_LOG").is_ok() {
+                eprintln!("LOG {}", serde_json::to_string(&res.log).unwrap_or_default());
+            }
         }
         let mut seen = std::collections::BTreeSet::new();
         for f in &res.findings {
